@@ -86,6 +86,9 @@ static const char *DOC_TEXT_END = R"___(
 std::vector<OptionGroup>                         option_groups;
 std::unordered_map<std::string, GenericOption *> option_map;
 
+//! number of 'include' lines being processed, see process_option_line()
+int include_depth = 0;
+
 #define LOG_CONFIG(...) \
    log_config(); LOG_FMT(LNOTE, __VA_ARGS__);
 
@@ -1103,6 +1106,7 @@ void process_option_line(const std::string &config_line, const char *filename,
    else if (cmd == "include")
    {
       auto       this_line_number = cpd.line_number;
+      const auto this_filename    = cpd.filename;
       const auto &include_path    = args[1];
 
       if (include_path.empty())
@@ -1110,20 +1114,35 @@ void process_option_line(const std::string &config_line, const char *filename,
          OptionWarning w{ filename };
          w("include: path cannot be empty");
       }
+      else if (include_depth >= limits::MAX_INCLUDE_DEPTH)
+      {
+         // a file that (indirectly) includes itself would recurse forever
+         OptionWarning w{ filename };
+         w("include: files are nested too deeply\n");
+         exit(EX_SOFTWARE);
+      }
       else if (is_path_relative(include_path))
       {
          // include is a relative path to the current config file
          UncText ut = std::string{ filename };
          ut.resize(static_cast<unsigned>(path_dirname_len(filename)));
          ut.append(include_path);
+         // name the included file in the warnings about its option values
+         cpd.filename = ut.c_str();
+         ++include_depth;
          UNUSED(load_option_file(ut.c_str(), compat_level));
+         --include_depth;
       }
       else
       {
          // include is an absolute path
+         cpd.filename = include_path;
+         ++include_depth;
          UNUSED(load_option_file(include_path.c_str(), compat_level));
+         --include_depth;
       }
       cpd.line_number = this_line_number;
+      cpd.filename    = this_filename;
    }
 #endif
    else if (cmd == "file_ext")
